@@ -21,6 +21,13 @@ rule("C03.b", "per row letter the constraint uses the documented relation (U <=,
               "right-hand side are subset by the same row mask", floor=8)
 rule("C01.c", "nodal rows (letter N) are translated as equalities by every interface", floor=2)
 rule("C03.c", "variable bounds reach the solver in the right direction; objective sign and optimisation direction agree", floor=4)
+rule("C18.d", "the duals that are reported belong to the objective -c'x as stated: the objective given to the solver is not re-scaled - or every "
+              "dual value is scaled back with the same factor (the value is; a dual of a problem whose objective was divided by k is the "
+              "marginal value divided by k)", floor=1)
+rule("C14.m", "a problem without variables (no asset is active: an interval of a split optimisation before the first asset starts, a portfolio "
+              "whose assets all lie outside the horizon) is answered by optimize() itself - an early return guarded by the number of variables "
+              "precedes the creation of the solver variable (cvxpy rejects a variable of shape (0,): the split problem would raise where the "
+              "unsplit one is solved)", floor=1, props=["C14", "C08"])
 rule("C03.j", "inside optimize() the boolean flags have one source: the working copy of the mapping in which make_soft_problem clears them - "
               "nothing selects 'the boolean variables' from the problem's own mapping (a relaxed solve would be post-processed like a MIP: the "
               "returned vector is no longer the solver's, value, bounds, rows and the reported nodal balance no longer fit)", floor=1,
@@ -245,7 +252,7 @@ def _stmts_in(body):
     return list(au.walk_stmts(body))
 
 
-@analysis("translation", ["C03.a", "C03.b", "C01.c", "C03.c", "C03.d", "C03.e", "C03.i", "C03.j"])
+@analysis("translation", ["C03.a", "C03.b", "C01.c", "C03.c", "C03.d", "C03.e", "C03.i", "C03.j", "C14.m", "C18.d"])
 def run(ctx):
     p = ctx.p
     opt = p.cls("OptimProblem").methods.get("optimize")
@@ -539,6 +546,61 @@ def run(ctx):
                            "the returned vector violates bounds and rows, its value is not -c'x and the reported nodal balance is off (fuel for "
                            "on = 0.15 is delivered, the report says 0)" % ", ".join(sorted(work)), node=n,
                            key="flags are read from the working copy: %s" % au.short(base, 30))
+
+    # ================================================================== C18.d duals of a re-scaled objective
+    objs = [st for st in _stmts_in(opt.body) if isinstance(st, ast.Assign) and isinstance(st.targets[0], ast.Name)
+            and any(isinstance(x, ast.BinOp) and isinstance(x.op, ast.MatMult) for x in au.walk_local(st.value))
+            and any(au.path(x) == "self.c" for x in au.walk_local(st.value))
+            and not any(isinstance(x, ast.Compare) for x in au.walk_local(st.value))]
+    dual_reads = [(st, x) for st in _stmts_in(opt.body) for x in au.walk_own(st) if isinstance(x, ast.Attribute) and x.attr == "dual_value"]
+    if not objs or not dual_reads:
+        ctx.ob("C18.d", opt, "objective / duals", None, "objective over self.c or the reads of dual_value not found")
+    for st in objs:
+        factors = set()
+        for x in au.walk_local(st.value):
+            if isinstance(x, ast.BinOp) and isinstance(x.op, (ast.Div, ast.Mult)) and any(au.path(y) == "self.c" for y in au.walk_local(x)):
+                other = x.right if any(au.path(y) == "self.c" for y in au.walk_local(x.left)) else x.left
+                if isinstance(other, ast.BinOp) and isinstance(other.op, ast.MatMult):
+                    continue
+                if any(isinstance(y, ast.BinOp) and isinstance(y.op, ast.MatMult) for y in au.walk_local(other)):
+                    continue
+                if au.const_num(other) in (1, -1, 1.0, -1.0):
+                    continue
+                if isinstance(other, ast.Name) and other.id in ("x",):
+                    continue
+                factors.add(au.U(other))
+        if not factors:
+            ctx.ob("C18.d", opt, "objective %s" % au.short(st, 60), True, ok_detail="not re-scaled", node=st)
+            continue
+        back = [x for _, x in dual_reads if any(f in au.U(p.parent(x)) or f in au.U(p.enclosing_stmt(x).value if isinstance(p.enclosing_stmt(x), ast.Assign) else x)
+                                                 for f in factors)]
+        ctx.ob("C18.d", opt, "objective %s" % au.short(st, 60), len(back) == len(dual_reads),
+               "the objective is scaled by %s before the solve, the duals are read off as they come (%s): the reported nodal prices are the marginal "
+               "values divided by that factor - with a penalty price of 2e7 in the portfolio every nodal price is too small by a factor of 20, an "
+               "injection raises the optimum by far more than price x d" % (", ".join(sorted(factors)), au.short(p.enclosing_stmt(dual_reads[0][1]), 60)),
+               node=st)
+
+    # ================================================================== C14.m the empty problem
+    creates = [(st, n) for st in _stmts_in(opt.body) for n in au.walk_own(st) if isinstance(n, ast.Call) and au.method_name(n) in ("Variable", "CreateSolver")]
+    if not creates:
+        ctx.ob("C14.m", opt, "empty problem", None, "creation of the solver variable not found")
+    else:
+        first = min(st.lineno for st, _ in creates)
+        guards = []
+        for st in opt.body:
+            if st.lineno >= first or not isinstance(st, ast.If):
+                continue
+            mentions_n = any((isinstance(x, ast.Attribute) and au.path(x) in ("self.c", "self.l", "self.u")) for x in au.walk_local(st.test))
+            sized = any(isinstance(x, ast.Call) and au.method_name(x) == "len" for x in au.walk_local(st.test)) or \
+                any(isinstance(x, ast.Attribute) and x.attr in ("shape", "size") for x in au.walk_local(st.test))
+            leaves = any(isinstance(x, ast.Return) for x in au.walk_stmts(st.body))
+            if mentions_n and sized and leaves:
+                guards.append(st)
+        ctx.ob("C14.m", opt, "a problem without variables is answered before the solver variable is created", bool(guards),
+               "optimize() hands every problem to the solver interface: with no variables (no asset active in an interval of a split "
+               "optimisation - all assets start later) cvxpy raises 'Invalid dimensions (0,)'. The unsplit problem over the same horizon is "
+               "solved, the split one raises although nothing couples the intervals", node=creates[0][1],
+               ok_detail="guard at %s" % (p.where(guards[0]) if guards else ""))
 
     # ================================================================== C03.e status discipline
     for iname, body in sorted(branches.items()):
